@@ -48,7 +48,12 @@ func runC18(s *kernel.Sim, _ string) {
 	// Requests may carry a deadline shorter than the time the handler takes:
 	// the query is still being processed and still counts.
 	reqTimeout := kernel.Pick(t, []time.Duration{0, 0, 20 * time.Millisecond, 500 * time.Millisecond}, "request-timeout")
-	sv := startServers(s, n, p, serverOpts{dot: true, pipelineLimit: uint(limit), reqTimeout: reqTimeout})
+	boundBuf := 0
+	if t.Chance(1, 3, "bound") {
+		boundBuf = kernel.Pick(t, []int{1, 4, 64}, "bound-chan")
+		s.Probe("interface-bound-listeners")
+	}
+	sv := startServers(s, n, p, serverOpts{dot: true, pipelineLimit: uint(limit), reqTimeout: reqTimeout, bound: boundBuf})
 	defer sv.shutdown()
 
 	burst := t.Range(1, 20, "burst")
